@@ -104,13 +104,17 @@ pub fn fnv1a(bytes: &[u8]) -> u64 {
 
 struct Crumbs {
     path: Option<std::path::PathBuf>,
+    /// the breadcrumb file, kept open: one positioned write per case (open+truncate+close per case made
+    /// state-space searches with millions of transitions 15x slower)
+    file: Option<std::fs::File>,
+    last_len: usize,
     counter: u64,
     resume_after: u64,
     skip: Vec<u64>,
 }
 
 thread_local! {
-    static CRUMBS: RefCell<Crumbs> = const { RefCell::new(Crumbs { path: None, counter: 0, resume_after: 0, skip: Vec::new() }) };
+    static CRUMBS: RefCell<Crumbs> = const { RefCell::new(Crumbs { path: None, file: None, last_len: 0, counter: 0, resume_after: 0, skip: Vec::new() }) };
 }
 
 /// Configure the breadcrumb file. Cases announced with `crumb` and numbered <= `resume_after` are
@@ -118,6 +122,8 @@ thread_local! {
 pub fn crumb_setup(path: Option<std::path::PathBuf>, resume_after: u64, skip: Vec<u64>) {
     CRUMBS.with(|c| {
         let mut c = c.borrow_mut();
+        c.file = path.as_ref().and_then(|p| std::fs::File::create(p).ok());
+        c.last_len = 0;
         c.path = path;
         c.counter = 0;
         c.resume_after = resume_after;
@@ -135,8 +141,22 @@ fn crumb_impl(bfs: bool, f: impl FnOnce() -> String) -> bool {
         if (!bfs && c.counter <= c.resume_after) || c.skip.contains(&c.counter) {
             return false;
         }
-        let text = format!("{{\"n\": {}, \"bfs\": {}, \"case\": {}}}", c.counter, bfs, f());
-        let _ = std::fs::write(c.path.as_ref().unwrap(), text);
+        let mut text = format!("{{\"n\": {}, \"bfs\": {}, \"case\": {}}}", c.counter, bfs, f());
+        // overwrite in place; pad with spaces over the remains of a longer previous crumb (JSON ignores them)
+        let len = text.len();
+        while text.len() < c.last_len {
+            text.push(' ');
+        }
+        c.last_len = len.max(c.last_len);
+        match &c.file {
+            Some(fh) => {
+                use std::os::unix::fs::FileExt;
+                let _ = fh.write_all_at(text.as_bytes(), 0);
+            }
+            None => {
+                let _ = std::fs::write(c.path.as_ref().unwrap(), text);
+            }
+        }
         true
     })
 }
